@@ -79,9 +79,9 @@ func c08Templates(batch, nbatch int) []*gram.Grammar {
 	grp := func(mode string, k *gram.Expr) *gram.Expr {
 		return &gram.Expr{Op: "grp", Mode: mode, Kids: []*gram.Expr{k}}
 	}
-	prefixes := []string{"none", "opt", "star", "poslook", "neglook", "consume", "bracketopt", "optgroup2", "nullable-production", "nullable-chain", "nullable-then-dependent"}
+	prefixes := []string{"none", "opt", "star", "poslook", "neglook", "consume", "bracketopt", "optgroup2", "nullable-production", "nullable-chain", "nullable-then-dependent", "nonempty-group-of-nullable-production"}
 	wrappers := []string{"bare", "paren", "optgroup", "stargroup", "look", "neg", "plusgroup", "captured-group-before"}
-	routes := []string{"direct", "viaB", "viaUnion", "viaBnullableprefix"}
+	routes := []string{"direct", "viaB", "viaUnion", "viaBnullableprefix", "viaUnionOnly"}
 	altpos := []string{"first", "second-after-single", "second-after-multi", "third"}
 	n := 0
 	for pi, pf := range prefixes {
@@ -112,12 +112,21 @@ func c08Templates(batch, nbatch int) []*gram.Grammar {
 							*fields = append(*fields, gram.Field{Name: fmt.Sprintf("F%d", len(*fields)), Kind: "ptr", Target: N2})
 							pre = append(pre, &gram.Expr{Op: "sub", Field: len(*fields) - 1})
 							needN = 2
+						case "nonempty-group-of-nullable-production":
+							// ( @@N1 )! : the capture satisfies "!" by value even when N1 consumed nothing
+							*fields = append(*fields, gram.Field{Name: fmt.Sprintf("F%d", len(*fields)), Kind: "ptr", Target: N1})
+							pre = append(pre, grp("!", grp("", &gram.Expr{Op: "sub", Field: len(*fields) - 1})))
+							needN = 1
 						case "nullable-chain":
 							*fields = append(*fields, gram.Field{Name: fmt.Sprintf("F%d", len(*fields)), Kind: "ptr", Target: N2})
 							pre = append(pre, &gram.Expr{Op: "sub", Field: len(*fields) - 1})
 							needN = 2
 						}
-						*fields = append(*fields, gram.Field{Name: fmt.Sprintf("F%d", len(*fields)), Kind: "ptr", Target: target})
+						kind := "ptr"
+						if target == U {
+							kind = "uni"
+						}
+						*fields = append(*fields, gram.Field{Name: fmt.Sprintf("F%d", len(*fields)), Kind: kind, Target: target})
 						fidx := len(*fields) - 1
 						sub := &gram.Expr{Op: "sub", Field: fidx}
 						var w *gram.Expr
@@ -173,6 +182,13 @@ func c08Templates(batch, nbatch int) []*gram.Grammar {
 						var bFields []gram.Field
 						bexpr := &gram.Expr{Op: "alt", Kids: []*gram.Expr{seq(lit("b"), lit("c")), seq(mkRefT(&bFields, A)...)}}
 						g.Prods = append(g.Prods, &gram.Prod{Name: B, Fields: bFields, Expr: bexpr, PosStyle: 0})
+					case "viaUnionOnly":
+						// the cycle closes through a union whose member is the production itself:
+						// no struct of the cycle is referenced by a plain @@ field
+						recAlt = seq(mkRefT(&aFields, U)...)
+						g.Prods = append(g.Prods,
+							&gram.Prod{Name: C, Fields: []gram.Field{{Name: "F0", Kind: "string"}}, Expr: seq(lit("c"), &gram.Expr{Op: "cap", Field: 0, Kids: []*gram.Expr{{Op: "ref", Typ: "Ident"}}})})
+						g.Unions = append(g.Unions, &gram.Union{Name: U, Members: []gram.Member{{Prod: C}, {Prod: A, Ptr: true}}})
 					case "viaUnion":
 						aFields = []gram.Field{{Name: "F0", Kind: "uni", Target: U}}
 						recAlt = seq(&gram.Expr{Op: "sub", Field: 0}, lit("e"))
